@@ -15,6 +15,7 @@ CONSTANTS
   Callers = {"pred"}
   SelMode = "all"
   WithNA = FALSE
+  NAInExpected = FALSE
   ExtraSet <- EX_f1zz
   Export = FALSE
   SampleMod = 1
